@@ -80,10 +80,22 @@ def check_transactional(ctx):
         ctx.require(len(loops) >= 2, f"{q}: pre-check and apply passes over function.DATA not found")
         pre = loops[0]
         pre_done = rules.branch_marker(pre, "false")
-        guards = [n for n in cfg.nodes if n.kind == "test" and norm(n.ast) in (f"{ack} != 0", f"{ack} == 0", f"not {ack}", ack)]
+        def zero_test(t):
+            """'true' / 'false': the branch of test t on which the acknowledge is 0; None if t is no such test."""
+            atoms = cnd.canon(t, True)
+            if len(atoms) != 1:
+                return None
+            (text_, pol), = atoms
+            if text_ == f"{ack} == 0":
+                return "true" if pol else "false"
+            if text_ == ack:
+                return "false" if pol else "true"
+            return None
+
+        guards = [n for n in cfg.nodes if n.kind == "test" and zero_test(n.ast) is not None]
         ctx.require(len(guards) >= 1, f"{q}: no test of {ack} against 0")
         G = guards[0]
-        ok_label = {f"{ack} != 0": "false", f"{ack} == 0": "true", f"not {ack}": "true", ack: "false"}[norm(G.ast)]
+        ok_label = zero_test(G.ast)
         okm = rules.branch_marker(G, ok_label)
         bad = [(n, h) for n, h in muts if not cfg.dominates(okm, n)]
         ctx.ob("C12.P1", q, not bad, "every change of the report/link tables is dominated by acknowledge 0" if not bad else
@@ -223,7 +235,9 @@ def check_integrity(ctx):
     f = repo.method("CollectionEventCapability", "_on_s02f33", inherited=False)
     ctx.touch(f)
     q = f.qualname
-    cfg = cfg_of(f.node)
+    from .. import inline
+
+    cfg = cfg_of(inline.expanded(ctx, f))  # the removal block may sit in a private helper
     # delete-all
     clears = {norm(c.func.value) for n in cfg.real_nodes() for c in n.calls if isinstance(c.func, ast.Attribute) and c.func.attr == "clear" and cnd.holds(cfg, n, "not function.DATA")}
     ok = clears == set(TABLES)
